@@ -99,6 +99,11 @@ def run(ctx):
 
 
 def selftest(ctx):
+    import copy
+
+    def deep(fn):
+        return lambda evs: fn(copy.deepcopy(evs))
+
     def first(evs, pred):
         for e in evs:
             if e["ev"] == "expr" and pred(e):
@@ -156,10 +161,10 @@ def selftest(ctx):
 
     P2 = dict(P)
     P2["driver"] = {"cmd": "selector"}
-    return pipeline.corruption_selftest(ctx, P2, [
+    return pipeline.corruption_selftest(ctx, P2, [(n, deep(f)) for n, f in [
         ("flip_eval", flip_eval), ("re_eval_differs", re_eval_differs), ("canon_differs", canon_differs),
         ("uid_differs", uid_differs), ("validate_accepts_rejected", validate_disagrees),
-        ("validate_rejects_valid", validate_rejects_valid), ("drop_label_map", drop_label_map), ("wrong_tree", wrong_tree)],
+        ("validate_rejects_valid", validate_rejects_valid), ("drop_label_map", drop_label_map), ("wrong_tree", wrong_tree)]],
         n_random=3)
 
 
